@@ -104,6 +104,15 @@ func Main(prop, tier string, only int) int {
 			jobs = append(jobs, job{"C17(" + sc.P.String() + ")", vsched.Config{Bound: sc.Bound, FireBudget: sc.P.Fire, MaxExec: sc.Max, Deadline: dl, StateKeys: true,
 				Body: c17Body(sc.P), Check: c17Check}})
 		}
+		apps := []c17AppParams{{Peer: true, Ticks: 1}, {Peer: false, Ticks: 2}}
+		for _, ap := range apps {
+			b := 2
+			if tier == "thorough" {
+				b = 3
+			}
+			jobs = append(jobs, job{"C17(" + ap.String() + ")", vsched.Config{Bound: b, TickBudget: ap.Ticks, Deadline: dl, StateKeys: true,
+				Body: c17AppBody(ap), Check: c17AppCheck}})
+		}
 	case "C17R":
 		// the same kind of scenarios with the happens-before race oracle on (vsr flavour: access reports inserted
 		// by the rewriter); no state-key pruning: a race depends on the history, not only on the state reached
